@@ -605,6 +605,10 @@ where
             _ => {
                 let get_next = async {
                     tokio::select! {
+                        // A new consumer is always registered before the next message is handled: the write
+                        // task learns about it only after it has been queued here, so the answer to the sync
+                        // it requests cannot overtake its registration.
+                        biased;
                         maybe_consumer = consumer_stream.next() => {
                             if let Some((consumer, options)) = maybe_consumer {
                                 ReadTaskEvent::NewConsumer(consumer, options)
